@@ -342,8 +342,12 @@ def one_op(draw):
         return [name, draw(ts), draw(st.sampled_from([None, None, 2, 0.5, -1]))]
     if name == "fill_n":
         return [name, draw(st.lists(ts, max_size=3))]
-    if name in ("imul", "idiv"):
-        return [name, draw(st.sampled_from([2, 0.5, 3, 2.5]))]
+    if name == "imul":
+        # 2**40: the contents still fit into int64, the squared factor does not
+        return [name, draw(st.sampled_from([2, 0.5, 3, 2.5, 2, 3, 2 ** 40, 2 ** 70]))]
+    if name == "idiv":
+        # 2**600: a Python integer that is a valid float, while its square is not
+        return [name, draw(st.sampled_from([2, 0.5, 3, 2.5, 2, 4, 2 ** 600]))]
     if name == "merge":
         return [name, draw(st.integers(1, 3))]
     if name == "set_dtype":
